@@ -171,7 +171,7 @@ def check_template(R2, R3, R4, sem, inst, res):
 
 def run(ctx, report):
     thorough = ctx.tier == 'thorough'
-    L = LifterModel(ctx, opmodes=('u32', 'u16'), rich=thorough)
+    L = LifterModel(ctx, opmodes=('u32', 'u16'), rich=True)
     sem = L.sem
     report.explanation = (
         'E4 derives the IR template of every live decoder variant (statically expanded opcode table) x operand form (register / memory / immediate '
